@@ -23,6 +23,8 @@ func init() {
 			{ID: "R20a", Floor: 4, Doc: "creation only in writer() behind w == nil; writer() only from Put and guarded Has; nothing else creates", Run: ruleR20a},
 			{ID: "R20b", Floor: 4, Doc: "Put delegates its parameters unchanged; writer built from constructor inputs; open flags", Run: ruleR20b},
 			{ID: "R20c", Floor: 3, Doc: "Close leaves closed on every return; callbacks get len(content); once-only removal keeps order", Run: ruleR20c},
+			{ID: "R20d", Floor: 1, Doc: "OnPut registers every callback it is given, whenever it is called: no return of OnPut bypasses the append to the callback list", Run: ruleR20d},
+			{ID: "R20e", Floor: 1, Doc: "Close finalizes whatever writer exists: from `w != nil` the call of w.Finalize is unavoidable (whether the output is a CARv1 or a CARv2 is the writer's business, decided by the same options the direct writer gets)", Run: ruleR20e},
 		},
 	})
 }
@@ -404,4 +406,92 @@ func ruleR20c(c *Ctx, r *Report) {
 		}
 		r.Check(bad == "", key, c.Pos(put.Pos()), "append(putCb[:i], putCb[i+1:]...)", bad)
 	}
+}
+
+func ruleR20d(c *Ctx, r *Report) {
+	fn, err := c.Func(pkgDeferred, "DeferredCarWriter", "OnPut")
+	if err != nil {
+		r.InfraFail("%v", err)
+		return
+	}
+	key := "registers-always@" + fnKey(fn)
+	var reg *ssa.Store
+	eachInstr(fn, func(in ssa.Instruction) {
+		st, ok := in.(*ssa.Store)
+		if !ok {
+			return
+		}
+		fa, ok := st.Addr.(*ssa.FieldAddr)
+		if !ok || !fieldAddrIs(fa, pkgDeferred, "DeferredCarWriter", "putCb") {
+			return
+		}
+		if cl, ok := st.Val.(*ssa.Call); ok {
+			if b, ok := cl.Call.Value.(*ssa.Builtin); ok && b.Name() == "append" {
+				reg = st
+			}
+		}
+	})
+	if reg == nil {
+		r.Undec(key, c.Pos(fn.Pos()), "the append to putCb was not found")
+		return
+	}
+	cut := EdgeSet{}
+	for _, b := range fn.Blocks {
+		for i, sc := range b.Succs {
+			if sc == reg.Block() {
+				cut[Edge{From: b, Succ: i}] = true
+			}
+		}
+	}
+	bad := ""
+	if reg.Block() != fn.Blocks[0] {
+		rs := reach(fn, nil, cut)
+		for _, ret := range returnsOf(fn) {
+			if rs[ret.Block()] && ret.Block() != reg.Block() {
+				bad = fmt.Sprintf("OnPut can return at %s without having registered the callback: a callback registered in that state never fires", c.Pos(ret.Pos()))
+			}
+		}
+	}
+	r.Check(bad == "", key, c.Pos(reg.Pos()), "every return passes the registration", bad)
+}
+
+func ruleR20e(c *Ctx, r *Report) {
+	fn, err := c.Func(pkgDeferred, "DeferredCarWriter", "Close")
+	if err != nil {
+		r.InfraFail("%v", err)
+		return
+	}
+	key := "close-finalizes@" + fnKey(fn)
+	var fin ssa.Instruction
+	eachInstr(fn, func(in ssa.Instruction) {
+		if ci, ok := in.(ssa.CallInstruction); ok && ci.Common().IsInvoke() && ci.Common().Method.Name() == "Finalize" {
+			fin = in
+		}
+	})
+	nonNil := cmpNilEdges(fn, func(v ssa.Value) bool { return loadsField(canon(v), pkgDeferred, "DeferredCarWriter", "w") }, false)
+	if fin == nil || len(nonNil) == 0 {
+		r.Viol(key, c.Pos(fn.Pos()), "Close does not call Finalize on the writer behind a `w != nil` test")
+		return
+	}
+	cut := EdgeSet{}
+	for _, b := range fn.Blocks {
+		for i, sc := range b.Succs {
+			if sc == fin.Block() {
+				cut[Edge{From: b, Succ: i}] = true
+			}
+		}
+	}
+	bad := ""
+	for _, e := range nonNil {
+		if e.From.Succs[e.Succ] == fin.Block() {
+			continue
+		}
+		rs := reachFromEdge(fn, e, cut)
+		for _, ret := range returnsOf(fn) {
+			if rs[ret.Block()] {
+				bad = fmt.Sprintf("with a writer in place, Close can reach the return at %s without calling Finalize: a CARv2 written through the deferred writer keeps its zeroed header and gets no index, where the direct writer finalizes", c.Pos(ret.Pos()))
+			}
+		}
+	}
+	r.Check(bad == "", key, c.Pos(fin.Pos()), "w != nil leads to Finalize on every path", bad)
 }
